@@ -4,6 +4,7 @@
 -/
 import HctlProofs.Lemmas.ParserCorrect
 import HctlProofs.Lemmas.LexerLemmas
+import HctlProofs.Lemmas.LexSpec
 import HctlModel.Api
 namespace Hctl.C05
 
@@ -81,6 +82,21 @@ theorem parseOne_ext_of_plain (E : Env) (K : CharClass) (hK : Lex.CharOK K) (cs 
   | ok ts =>
     rw [ext_extends_plain K hK cs ts hl]
     simpa [hl] using h
+
+/-- THE TOKENIZER MEETS ITS SPECIFICATION (`Lemmas/LexSpec.lean`: `Sp`, `Seg` — which texts spell which token lists):
+a text is tokenized to `toks` exactly when it spells `toks`. -/
+theorem lexer_meets_spec (K : CharClass) (hK : Lex.CharsOK K) (ext : Bool) (cs : List Char) (toks : List Tok) :
+    Lex.tokenize K ext cs = .ok toks ↔ Lex.Sp K ext cs toks := Lex.tokenize_iff_spells hK ext cs toks
+
+/-- FULL STATEMENT (text level): a text is accepted with tree `t` exactly when it spells a token list that derives `t`
+in the documented grammar — tokenizer and parser together accept exactly the documented language. -/
+theorem accepts_iff (K : CharClass) (hK : Lex.CharsOK K) (ext : Bool) (cs : List Char) (t : Tree) :
+    (∃ toks, Lex.tokenize K ext cs = .ok toks ∧ parseToks toks = .ok t) ↔ ∃ toks, Lex.Sp K ext cs toks ∧ Derives toks t := by
+  constructor
+  · rintro ⟨toks, h1, h2⟩
+    exact ⟨toks, (lexer_meets_spec K hK ext cs toks).mp h1, (parse_iff_derives toks t).mp h2⟩
+  · rintro ⟨toks, h1, h2⟩
+    exact ⟨toks, (lexer_meets_spec K hK ext cs toks).mpr h1, (parse_iff_derives toks t).mpr h2⟩
 
 /-! Non-vacuity: concrete accepted inputs, priorities and associativity, and the repaired defect D7. -/
 
